@@ -49,6 +49,9 @@ def _get_all_lindblad_noise_operators(
     ]
 
 
+_TIME_TOLERANCE = 1e-10  # relative to the sequence duration
+
+
 def _unique_observable_times(
     config: EmulationConfig,
 ) -> set[float]:
@@ -86,7 +89,18 @@ def _get_target_times(
     evolution_times_rel.add(1.0)
     target_times_rel = evolution_times_rel | _unique_observable_times(config)
     target_times: list[float] = sorted({t * duration for t in target_times_rel})
-    return target_times
+
+    # A multiple of dt and an evaluation time (or two evaluation times) that differ
+    # by rounding only are the same time: the backends match evaluation times with
+    # the same relative tolerance, and a step of (almost) zero length is never wanted.
+    merged_times: list[float] = []
+    for t in target_times:
+        if merged_times and t - merged_times[-1] <= _TIME_TOLERANCE * duration:
+            if t == duration:
+                merged_times[-1] = t  # the last target time is exactly the duration
+            continue
+        merged_times.append(t)
+    return merged_times
 
 
 def _extract_omega_delta_phi(
